@@ -43,6 +43,9 @@ type Step struct {
 	Obs  Obs   `json:"obs"`
 	Read hx.BS `json:"read"`
 	Err  bool  `json:"err"`
+	// Lenient: a negative index that designates no field; the specification predicts "nothing
+	// changes", an error is accepted as well (the statement leaves that open)
+	Lenient bool `json:"lenient"`
 }
 
 type History struct {
@@ -239,6 +242,9 @@ func Replay(raw json.RawMessage) hx.Outcome {
 		}
 		if !bytes.Equal(res.Stdout, []byte(want)) {
 			idx, kind := firstDiff(&h, segs, string(res.Stdout))
+			if h.Steps[idx].Lenient && res.Err != nil && strings.HasPrefix(want, string(res.Stdout)) {
+				continue // the run ended with an error at the out-of-range negative index: allowed
+			}
 			a := h.Steps[idx].Act
 			sig := fmt.Sprintf("C06/%s/%s/%s", a.Op, kind, argClass(a))
 			return hx.Fail(sig, fmt.Sprintf("[%s] record state after step %d (%s) differs", mode, idx+1, a.Op), want, string(res.Stdout), prog)
